@@ -23,7 +23,32 @@ def nontrivial(s, run):
     return False
 
 
+def counter_protocol(ctx):
+    """The single-worker core of the protocol (CounterProtocol.tla): TLC for Limit = 3 with a bounded load, and an inductive
+    invariant discharged by Apalache for EVERY limit >= 1 and unboundedly many connections: Init => IndInv,
+    IndInv /\ Next => IndInv', IndInv => (C02_Bound /\ C03_NoLostWake).  The pinned tree's wake rule must be refuted."""
+    import vlib
+    res = ctx.model_check("server/CounterProtocol.tla", "MC_counter_l3.cfg", workers=2)
+    vlib.require_ok(res, "MC_counter_l3.cfg")
+    ctx.add_tlc("MC_counter_l3.cfg", res, "exhaustive (the reduced protocol is finite for a fixed limit)")
+    ctx.expect_neg("server/CounterProtocol.tla", "NEG_counter_asfound.cfg", ["C03_NoLostWake"])
+    mod = "server/CounterProtocol.tla"
+    steps = [("ConstInit", "Init", "IndInv", 0, "ok", "Init => IndInv"),
+             ("ConstInit", "IndInit", "IndInv", 1, "ok", "IndInv /\\ Next => IndInv'"),
+             ("ConstInit", "IndInit", "Goal", 0, "ok", "IndInv => C02_Bound /\\ C03_NoLostWake"),
+             ("ConstInitAsFound", "Init", "Goal", 6, "error", "as-found wake rule (old value = limit): goal refuted within 6 steps")]
+    out = []
+    for (cinit, init, inv, length, want, what) in steps:
+        got = vlib.run_apalache(mod, cinit=cinit, init=init, inv=inv, length=length, tag="c03-%s-%s-%d" % (cinit, inv, length))
+        if got != want:
+            raise vlib.ToolError("Apalache: %s: expected %s, got %s" % (what, want, got))
+        out.append({"obligation": what, "result": got})
+    ctx.cov["apalache_inductive_invariant"] = {"module": "spec/server/CounterProtocol.tla", "for": "every Limit >= 1, unbounded load",
+                                                "obligations": out}
+
+
 def run(ctx):
+    counter_protocol(ctx)
     srvflow.run_check(
         ctx, design=DESIGN, edge_cfgs=EDGES, negs=NEGS, invariants=INV, corpus=["server_core.ndjson", "server_cmd.ndjson", "server_cmd_sat.ndjson"],
         thorough_design=THOROUGH, live=["LIVE_C03.cfg", "LIVE_C03_w2.cfg"],
